@@ -199,9 +199,14 @@ func checkJustified(prop string, m *Model, v *Verdict) {
 			for r := range m.RoutesOf(n2) {
 				mem := m.members(r, n2.GroupLabels)
 				cal := len(r.Mute) > 0 || len(r.Active) > 0
+				// The dispatcher's copy of an alert may lag the submission by an ingestion
+				// hold (up to 2 s) while silences and inhibition are evaluated up to date: a
+				// member counts as absent at t if it is ineligible at some instant within
+				// that lag of t.
+				const lag = 2100 * time.Millisecond
 				if m.Sometime(n1.Done-eps, n2.T+eps, cal, func(t Dur) bool {
 					for _, lk := range mem {
-						if m.Eligible(lk, r, t) {
+						if !m.Sometime(t-lag, t+lag, cal, func(u Dur) bool { return !m.Eligible(lk, r, u) }) {
 							return false
 						}
 					}
